@@ -5,7 +5,7 @@
 SRC=${1:-/tmp/seed}
 export GOPROXY=off
 unset GOFLAGS GOWORK
-for d in $SRC/C*/[a-z]; do
+for d in $SRC/[A-Z]*/[a-z]; do
   id=$(basename $(dirname $d)); x=$(basename $d); name=$id-$x
   [ -f $d/patch.diff ] || continue
   wt=/tmp/wt-verify-$name
@@ -19,13 +19,17 @@ for d in $SRC/C*/[a-z]; do
     ( cd $wt && go test -vet=off -count=1 ./... && (cd internal/app && go test -vet=off -count=1 ./...) ) >/dev/null 2>&1 || status="existing-tests-fail"
   fi
   demo_with="n/a"; demo_without="n/a"
-  if [ $status = ok ] && [ $x = h ]; then
+  harmless=no; case $x in h|p|q) harmless=yes;; esac
+  if [ $status = ok ] && [ $harmless = yes ]; then
     # harmless rewrite: the equivalence test must pass with and without the change
     if [ -f $d/equiv_test.go ]; then
       cp $d/equiv_test.go $wt/zz_seed_equiv_test.go
       ( cd $wt && go test -vet=off -count=1 -timeout 300s -run TestSeedEquiv . ) >/dev/null 2>&1 && demo_with=pass || demo_with=fail
       ( cd $wt && git checkout -q -- . && go test -vet=off -count=1 -timeout 300s -run TestSeedEquiv . ) >/dev/null 2>&1 && demo_without=pass || demo_without=fail
       rm -f $wt/zz_seed_equiv_test.go
+    elif [ -f $d/equiv.sh ]; then
+      ( cd $d && bash ./equiv.sh $wt ) >/dev/null 2>&1 && demo_with=pass || demo_with=fail
+      ( cd $wt && git checkout -q -- . ); ( cd $d && bash ./equiv.sh $wt ) >/dev/null 2>&1 && demo_without=pass || demo_without=fail
     fi
   elif [ $status = ok ] && [ -f $d/demo_test.go ]; then
     cp $d/demo_test.go $wt/zz_seed_demo_test.go
@@ -42,17 +46,17 @@ for d in $SRC/C*/[a-z]; do
   git -C /repo worktree remove --force $wt
   echo "$name status=$status demo_with_change=$demo_with demo_without=$demo_without"
   keep=no
-  [ $status = ok ] && [ $x != h ] && [ $demo_with = fail ] && [ $demo_without = pass ] && keep=yes
-  [ $status = ok ] && [ $x = h ] && [ $demo_with != fail ] && [ $demo_without != fail ] && keep=yes
+  [ $status = ok ] && [ $harmless = no ] && [ $demo_with = fail ] && [ $demo_without = pass ] && keep=yes
+  [ $status = ok ] && [ $harmless = yes ] && [ $demo_with = pass ] && [ $demo_without = pass ] && keep=yes
   if [ $keep = yes ]; then
     mkdir -p /verif/seeded/$name
     cp $d/patch.diff /verif/seeded/$name/
-    for f in demo_test.go demo.js run.sh demo.sh notes.md extra_conc_test.go demo_wasm_test.go equiv_test.go; do [ -f $d/$f ] && cp $d/$f /verif/seeded/$name/; done
+    for f in demo_test.go demo.js run.sh demo.sh notes.md extra_conc_test.go demo_wasm_test.go equiv_test.go equiv.sh driver.js driver.py expected.jsonl expected.json golden.json property.txt; do [ -f $d/$f ] && cp $d/$f /verif/seeded/$name/; done
     python3 - "$name" "$id" "$d" <<'PY'
 import json,sys,os
 name,pid,d=sys.argv[1:4]
 notes=open(os.path.join(d,'notes.md')).read() if os.path.exists(os.path.join(d,'notes.md')) else ''
-harmless = name.endswith('-h')
+harmless = name.endswith(('-h','-p','-q'))
 json.dump({"id":name,("anchored_in_property" if harmless else "breaks_property"):pid,"kind":("harmless-rewrite" if harmless else "breaking"),"author":"independent sub-agent (given only the property text and a scratch worktree)",
   "needs_to_manifest":notes.strip()[:1500],
   "confirmed":{"applies_to":"/repo HEAD at archive time","builds":"go build ./... + internal/app + GOOS=js GOARCH=wasm wasm/main.go","existing_tests":"go test -vet=off -count=1 ./... (root and internal/app) pass with the change",
